@@ -38,6 +38,7 @@ type Oblig struct {
 	Ambient bool
 	Known   bool
 	Finding string
+	Extra   bool // an additional counterexample for an obligation already counted
 }
 
 type Leaf struct {
@@ -55,6 +56,7 @@ type Leaf struct {
 	Reached  []string
 	Effects  []string
 	GWrites  []string
+	Notes    []string
 	Shadow   []*Term
 	WDefs    map[*Term]*Term
 	DetObs   []Obs
@@ -103,6 +105,8 @@ type Path struct {
 	obligs      []*Oblig
 	keptUnknown int
 	inInit      bool
+	syncMaps    map[*Value]*Map
+	notes       []string
 	cmdOutput   *Term
 	writes      int
 	onceDone    map[*Value]bool
@@ -336,6 +340,7 @@ func (p *Path) execute() (leaf *Leaf) {
 		leaf.Reached = p.reached
 		leaf.Effects = p.effects
 		leaf.GWrites = p.gwrites
+		leaf.Notes = p.notes
 		leaf.Shadow = p.shadow
 		leaf.WDefs = p.wdefs
 		leaf.DetObs = p.detObs
@@ -1152,23 +1157,50 @@ func (p *Path) refineAndRecord(ob *Oblig, neg *Term) {
 	if p.tier > 0 {
 		budget = 150 * time.Second
 	}
-	r := solveModelS(p.ss, asserts, p.shadow, p.wdefs, names, nts, nil, p.ex.obligTO/2, p.ex.useCVC, time.Now().Add(budget), 10)
-	ob.Solvers = r.Solvers
-	switch r.Status {
-	case "unsat":
-		ob.Status = "discharged"
-		ob.Reason = fmt.Sprintf("after %d refinement round(s) against the real library", r.Rounds)
-	case "sat":
-		ob.Status = "violated-candidate"
-		ob.Model = r.Model
-		ob.Choices = map[string]int{}
-		for k, c := range p.choices {
-			ob.Choices[k] = c
+	deadline := time.Now().Add(budget)
+	// up to 3 different counterexamples (each later one must differ from the earlier ones in some
+	// input): the symbolic obligation may be stricter than the native oracle, so that the first model
+	// need not be one that reproduces
+	cur := ob
+	for k := 0; k < 3; k++ {
+		r := solveModelS(p.ss, asserts, p.shadow, p.wdefs, names, nts, nil, p.ex.obligTO/2, p.ex.useCVC, deadline, 10)
+		if k > 0 && r.Status != "sat" {
+			return
 		}
-		ob.Reason = "model by " + r.By
-	default:
-		ob.Status = "inconclusive"
-		ob.Reason = r.Reason
+		cur.Solvers = r.Solvers
+		switch r.Status {
+		case "unsat":
+			cur.Status = "discharged"
+			cur.Reason = fmt.Sprintf("after %d refinement round(s) against the real library", r.Rounds)
+			return
+		case "sat":
+			cur.Status = "violated-candidate"
+			cur.Model = r.Model
+			cur.Choices = map[string]int{}
+			for kk, c := range p.choices {
+				cur.Choices[kk] = c
+			}
+			cur.Reason = "model by " + r.By
+		default:
+			cur.Status = "inconclusive"
+			cur.Reason = r.Reason
+			return
+		}
+		// block this assignment of the named inputs
+		var diffs []*Term
+		for i, n := range names {
+			if strings.HasPrefix(n, "env:") {
+				continue
+			}
+			diffs = append(diffs, mkNot(mkEq(nts[i], valueTerm(r.Model[n], nts[i].Sort))))
+		}
+		if len(diffs) == 0 {
+			return
+		}
+		asserts = append(asserts, mkOr(diffs...))
+		next := &Oblig{Harness: ob.Harness, Label: ob.Label, PathID: ob.PathID, Ambient: ob.Ambient, Known: ob.Known, Finding: ob.Finding, Cond: ob.Cond, Extra: true}
+		p.obligs = append(p.obligs, next)
+		cur = next
 	}
 }
 
